@@ -77,6 +77,13 @@ def variants(p, rng, auth, my_id, my_psk, victim_psk, victim_id, victim_auth_dat
         out.append(('psk-method-public-key-as-psk', it, idata, 2, p.auth_psk(peer_pub_pem.encode(), it, idata)))
         out.append(('psk-method-random', it, idata, 2, gen.rb(rng, 32)))
         out.append(('psk-method-with-signature', it, idata, 2, good))
+        # degenerate signature values (a verifier that special-cases "nothing to verify" accepts them)
+        out.append(('signature-empty', it, idata, 1, b''))
+        out.append(('signature-all-zero', it, idata, 1, bytes(len(good))))
+        out.append(('signature-one-octet', it, idata, 1, b'\x01'))
+        out.append(('signature-truncated', it, idata, 1, good[:-1]))
+        out.append(('signature-with-a-trailing-octet', it, idata, 1, good + b'\0'))
+        out.append(('signature-last-bit-changed', it, idata, 1, good[:-1] + bytes([good[-1] ^ 1])))
     if auth == 'psk':
         # an AUTH value that WAS valid in an earlier session of the same two parties (other nonces, other keys)
         import hashlib
